@@ -27,6 +27,10 @@ def stable_dt_max(dev, gamma, u):
     return min(0.1, 0.5 * u / (lam * math.sqrt(1 + gamma ** 2)))
 
 
+class TooManySteps(Exception):
+    pass
+
+
 def run_case(rep, rng, ci, cfg, texts, recs_all):
     dev = meshes.make_device(rng, holes=cfg["holes"], terminals=cfg["terminals"], smooth=cfg["smooth"],
                              max_edge_length=1.6 if cfg["model"] else 0.8, gamma=cfg["gamma"], u=cfg["u"],
@@ -34,6 +38,8 @@ def run_case(rep, rng, ci, cfg, texts, recs_all):
     dt_max = stable_dt_max(dev, cfg["gamma"], cfg["u"])
     dt_init = dt_max / cfg.get("ratio", 50)
     worst = dict(psi=0.0, J=0.0, mu=0.0)
+    # a correct run takes window+2 small steps and then steps of dt_max (adaptive) or steps*ratio fixed steps
+    cap = 2 * ((cfg["steps"] + 8) if cfg["adaptive"] else int(cfg["steps"] * cfg.get("ratio", 50)) + 1) + 50
     dts = []
     recs = []
     last_dt = {}
@@ -46,14 +52,24 @@ def run_case(rep, rng, ci, cfg, texts, recs_all):
         worst["J"] = max(worst["J"], float(np.max(np.abs(res.supercurrent))), float(np.max(np.abs(res.normal_current))))
         worst["mu"] = max(worst["mu"], float(np.max(np.abs(res.mu - np.mean(res.mu)))))
         dts.append(float(res.dt))
+        if len(dts) > cap:
+            raise TooManySteps()
         if cfg["model"] and state["step"] in (1, 30) and len(recs) < 2:
             recs.append(stepcorr.StepRecord(solver, state, last_dt["dt"], kw, res))
 
     with tempfile.TemporaryDirectory(prefix="pyt_c17_") as td:
         opts = runs.make_options(td, solve_time=cfg["steps"] * dt_max, dt_init=dt_init, dt_max=dt_max,
-                                 adaptive=cfg["adaptive"], adaptive_window=5, save_every=50, terminal_psi=None,
+                                 adaptive=(np.bool_(cfg["adaptive"]) if ci % 2 else (1 if cfg["adaptive"] else 0)) if ci % 3 else cfg["adaptive"],
+                                 adaptive_window=5, save_every=50, terminal_psi=None,
                                  include_screening=cfg["screening"], screening_tolerance=1e-3)
-        _, solver_ = runs.traced_solve(dev, opts, A=0.0, currents=None, on_step=on_step, before_step=before)
+        try:
+            _, solver_ = runs.traced_solve(dev, opts, A=0.0, currents=None, on_step=on_step, before_step=before)
+        except TooManySteps:
+            rep.violation(f"stationary state: the run needed more than {cap} updates for a span of {cfg['steps']} dt_max - the time "
+                          "step does not follow the rule (dt_init for window+2 steps, then dt_max)",
+                          {"run": ci, **{k: str(v) for k, v in cfg.items()}, "dt_init": dt_init, "dt_max": dt_max,
+                           "dt_last": dts[-1], "dts_head": dts[:12]})
+            return
         runs.report_threading(rep, solver_, {"run": ci})
     case = {"run": ci, **cfg, "sites": len(dev.mesh.sites), "dt_max": dt_max, "updates": len(dts), **{f"max_{k}": v for k, v in worst.items()}}
     tol = 1e-11
